@@ -23,17 +23,31 @@ KERNEL_PREFIX = ('mpf_', 'mpc_')
 PREC_PARAMS = ('prec', 'wp')
 
 
+def nonneg(e):
+    """expression that is >= 0 whatever its arguments: bitcount(..), abs(..), max(0, ..), len(..)"""
+    if isinstance(e, ast.Call) and isinstance(e.func, ast.Name):
+        if e.func.id in ('bitcount', 'abs', 'len'):
+            return True
+        if e.func.id == 'max' and any(isinstance(a, ast.Constant) and a.value == 0 for a in e.args):
+            return True
+    return False
+
+
 def aff(e, env):
+    """(base, const) for base + const; (base, const, 'ge') when only a lower bound base + const is
+    known (a non-negative term such as bitcount(..) was added)"""
     if isinstance(e, ast.Name):
         return env.get(e.id)
     if isinstance(e, ast.BinOp) and isinstance(e.op, (ast.Add, ast.Sub)):
         l = aff(e.left, env)
         if l is not None and isinstance(e.right, ast.Constant) and isinstance(e.right.value, int):
-            return (l[0], l[1] + (e.right.value if isinstance(e.op, ast.Add) else -e.right.value))
+            return (l[0], l[1] + (e.right.value if isinstance(e.op, ast.Add) else -e.right.value)) + tuple(l[2:])
         if isinstance(e.left, ast.Constant) and isinstance(e.left.value, int) and isinstance(e.op, ast.Add):
             r = aff(e.right, env)
             if r is not None:
-                return (r[0], r[1] + e.left.value)
+                return (r[0], r[1] + e.left.value) + tuple(r[2:])
+        if l is not None and isinstance(e.op, ast.Add) and nonneg(e.right):
+            return (l[0], l[1], 'ge')
     return None
 
 
@@ -85,7 +99,7 @@ class GuardScan(object):
                         for a in x.args:
                             if isinstance(a, ast.Name) and a.id in defs:
                                 d, lo = defs[a.id]
-                                if lo[0] == hi[0]:
+                                if lo[0] == hi[0] and len(lo) == 2:
                                     self.pairs += 1
                                     if lo[1] <= 0 < hi[1]:
                                         self.findings.append((x, d, lo, hi))
@@ -106,8 +120,11 @@ class GuardScan(object):
                 if t in env:
                     if isinstance(st.value, ast.Constant) and isinstance(st.value.value, int) and \
                             isinstance(st.op, (ast.Add, ast.Sub)):
-                        b, c = env[t]
-                        env[t] = (b, c + (st.value.value if isinstance(st.op, ast.Add) else -st.value.value))
+                        b, c = env[t][0], env[t][1]
+                        env[t] = (b, c + (st.value.value if isinstance(st.op, ast.Add) else -st.value.value)) + \
+                            tuple(env[t][2:])
+                    elif isinstance(st.op, ast.Add) and nonneg(st.value):
+                        env[t] = (env[t][0], env[t][1], 'ge')
                     else:
                         env[t] = ('%s@%d' % (t, st.lineno), 0)
                 defs.pop(t, None)
